@@ -19,6 +19,7 @@ import warnings
 VERIF = os.path.dirname(os.path.dirname(os.path.abspath(__file__)))
 LEAN = os.path.join(VERIF, "lean")
 REPO = os.environ.get("HVSRPY_SRC", "/repo")
+HARNESS = os.path.join(VERIF, "harness")
 DRIVER = os.path.join(LEAN, ".lake", "build", "bin", "hvsrdrv")
 WORK = os.path.join(VERIF, ".work", str(os.getpid()))
 
@@ -494,3 +495,57 @@ def quiet():
     buf = io.StringIO()
     with contextlib.redirect_stdout(buf):
         yield buf
+
+
+def canon_result(r):
+    """bit-exact, JSON-able form of an implementation result (floats as hex strings, arrays as nested lists)"""
+    import numpy as _np
+    if isinstance(r, dict):
+        return {str(k): canon_result(v) for k, v in sorted(r.items(), key=lambda kv: str(kv[0]))}
+    if isinstance(r, (list, tuple)):
+        return [canon_result(v) for v in r]
+    if isinstance(r, _np.ndarray):
+        return canon_result(r.tolist())
+    if isinstance(r, (float, _np.floating)):
+        return float(r).hex() if r == r else "nan"
+    if isinstance(r, (_np.integer,)):
+        return int(r)
+    if isinstance(r, (_np.bool_,)):
+        return bool(r)
+    if isinstance(r, (str, int, bool)) or r is None:
+        return r
+    return repr(type(r))
+
+
+def reverse_order_probe(ctx, module, func, cases, clause, seam, sample=40):
+    """history independence: the same cases evaluated first-to-last in this (warm) process and last-to-first in a fresh interpreter must give
+    bit-identical implementation results"""
+    import importlib
+    if not cases:
+        return
+    idx = list(range(0, len(cases), max(1, len(cases) // sample)))[:sample]
+    sub = [cases[i] for i in idx]
+    fn = getattr(importlib.import_module(module), func)
+    here = [canon_result(fn(c)) for c in sub]
+    env = dict(os.environ)
+    env["PYTHONPATH"] = REPO + (os.pathsep + env["PYTHONPATH"] if env.get("PYTHONPATH") else "")
+    env["PYTHONDONTWRITEBYTECODE"] = "1"
+    try:
+        p = subprocess.run([sys.executable, "-W", "ignore", os.path.join(HARNESS, "revprobe.py"), module, func], input=json.dumps(sub, default=str).encode(),
+                           env=env, stdout=subprocess.PIPE, stderr=subprocess.PIPE, timeout=900)
+    except subprocess.TimeoutExpired:
+        ctx.notes.append("reverse-order probe timed out (not judged)")
+        return
+    out = p.stdout.decode(errors="replace")
+    k = out.rfind("REVPROBE ")
+    if k < 0:
+        ctx.notes.append("reverse-order probe could not run: " + p.stderr.decode(errors="replace")[-300:])
+        return
+    there = json.loads(out[k + 9:])
+    ctx.supporting["reverse_order_fresh_interpreter_cases"] = ctx.supporting.get("reverse_order_fresh_interpreter_cases", 0) + len(sub)
+    for c, a, b in zip(sub, here, there):
+        if a != b:
+            ctx.violation(clause, dict(case=c, note="the implementation's result for this input depends on what was evaluated before it: evaluated after the other sampled "
+                                                    "cases in a warm process vs before them in a fresh interpreter", warm_process=a, fresh_interpreter_reversed_order=b,
+                                       sampled_cases=len(sub)), seam=seam)
+            return
